@@ -88,7 +88,7 @@ class C07(Property):
             if ctx.out_of_time():
                 ctx.extra["incomplete"] = True
                 break
-            feats = {"exec": 4} if rng.random() < 0.35 else ({"cart": 4, "gather": 6} if rng.random() < 0.25 else None)
+            feats = {"exec": 4} if rng.random() < 0.35 else ({"cart": 4, "gather": 6} if rng.random() < 0.25 else ({"loop": 3} if rng.random() < 0.25 else None))
             spec = wfgen.gen_spec(rng, size=rng.randint(2, 12), features=feats)
             failing = rng.random() < 0.33
             fspec = wfgen.choose_failure(rng, spec) if failing else None
@@ -121,8 +121,9 @@ class C07(Property):
                 if r["outcome"]["kind"] != "return":
                     continue
                 real = wfcheck.render_edges(wfcheck.real_prov(spec, r)["edges"])
-                if real != g:
-                    a, b = set(real.split(",")) - {"-"}, set(g.split(",")) - {"-"}
+                model = wfcheck.render_edges(wfcheck.drop_opaque(spec, set(g.split(",")) - {"-"}))
+                if real != model:
+                    a, b = set(real.split(",")) - {"-"}, set(model.split(",")) - {"-"}
                     ctx.disagree("provenance edges: model vs real", f"real-model {sorted(a - b)[:6]} model-real {sorted(b - a)[:6]}",
                                  {"spec": spec, "failing": False, "seed": r["seed"], "shuffle": r["shuffle"]})
                     break
